@@ -1,6 +1,7 @@
 import GrinVerif.Drv.Common
 import GrinVerif.Model.Pmmr
 import GrinVerif.Model.PmmrHandle
+import GrinVerif.Model.PmmrU64
 namespace GV.Drv.PmmrD
 open GV GV.Pmmr GV.Drv
 
@@ -49,6 +50,10 @@ def specFixed (st : St) : Bool :=
 /-- compare as a property-fixed value or as an internal observable -/
 def cmpBy (spec : Bool) (model impl : String) : Verdict :=
   if spec then cmpSpec model impl else cmpModel model impl
+
+/-- release-build value `w` against the value on unbounded naturals `n`: equal = fixed by the
+property; different = an observable of the wrapped arithmetic -/
+def cmpW (w n impl : String) : Verdict := if w = n then cmpSpec w impl else cmpModel w impl
 
 /-- the ops of the `handle` / `atsize` runs; a trailing tag (which kind of view was asked: `pmmr`,
 `ro`, `rw` - they share one body in the code and one function here) is ignored -/
@@ -151,6 +156,51 @@ def handle (st : St) (args : List String) (impl : String) : St × Verdict :=
     | none => (st, .unknown)
   | ["leafiter", p] => match nat? p with
     | some p => (st, cmpSpec (showNatList (bintreeLeafPosIter p)) impl)
+    | none => (st, .unknown)
+  -- the same functions with release-build u64 arithmetic (`Model/PmmrU64.lean`), for inputs up to
+  -- u64::MAX: where nothing wraps the value is the property's (spec), where it wraps it is what the
+  -- release build computes (model)
+  | ["roundupw", p] => match nat? p with
+    | some p => (st, cmpW (toString (U64.roundUpToLeafPos p)) (toString (roundUpToLeafPos p)) impl)
+    | none => (st, .unknown)
+  | ["ins2posw", p] => match nat? p with
+    | some p => (st, cmpW (toString (U64.insertionToPmmrIndex p)) (toString (insertionToPmmrIndex p)) impl)
+    | none => (st, .unknown)
+  | ["familyw", p] => match nat? p with
+    | some p =>
+      let r := U64.family p
+      let n := family p
+      (st, cmpW s!"{r.1} {r.2}" s!"{n.1} {n.2}" impl)
+    | none => (st, .unknown)
+  | ["leftmostw", p] => match nat? p with
+    | some p => (st, cmpW (toString (U64.bintreeLeftmost p)) (toString (bintreeLeftmost p)) impl)
+    | none => (st, .unknown)
+  | ["rangew", p] => match nat? p with
+    | some p =>
+      let r := U64.bintreeRange p
+      let n := bintreeRange p
+      (st, cmpW s!"{r.1} {r.2}" s!"{n.1} {n.2}" impl)
+    | none => (st, .unknown)
+  | ["leafiterw", p] => match nat? p with
+    | some p => (st, cmpW (showNatList (U64.bintreeLeafPosIter p)) (showNatList (bintreeLeafPosIter p)) impl)
+    | none => (st, .unknown)
+  | ["positerw", p] => match nat? p with
+    | some p =>
+      let r := U64.bintreePosIter p
+      let n := bintreeRange p
+      (st, cmpW s!"{r.1} {r.2}" s!"{n.1} {n.2 - n.1}" impl)
+    | none => (st, .unknown)
+  | ["branchw", p, s] => match nat? p, nat? s with
+    | some p, some s =>
+      match U64.familyBranch p s with
+      | some l => (st, cmpW (showPairs l) (showPairs (familyBranch p s)) impl)
+      | none => (st, cmpModel "hang" impl)
+    | _, _ => (st, .unknown)
+  | ["isleaf", p] => match nat? p with
+    | some p => (st, cmpSpec (showBool (isLeaf p)) impl)
+    | none => (st, .unknown)
+  | ["psh", p] => match nat? p with
+    | some p => let r := peakSizesHeight p; (st, cmpSpec s!"{showNatList r.1} {r.2}" impl)
     | none => (st, .unknown)
   | ["new"] => ({ hashes := [], removed := [] }, .ok)
   | ["push", e] => match parseHex e with
